@@ -176,6 +176,8 @@ def _explore(arg):
         inside = [i + 1 for i, st in enumerate(stacks) if 'load_rules' in st]
         ks = sorted({1, inside[len(inside) // 2] if inside else 1, after})
         jstep = 3
+        if q != base['query'] and q not in base.get('also_request', []):
+            ks, jstep = [after], 4          # thorough's extra requests: only the decider past its load step
         if thorough and q == base['query']:
             ks = sorted(set(range(1, n_d + 1, 5)) | {after, max(1, after - 1), min(n_d, after + 1)})
             jstep = 4
